@@ -141,6 +141,9 @@ theorem clamp_index {x hi : UInt32} {q h : ℚ} (hx : toRat? x = some q) (hhi : 
     lt_of_le_of_lt (Int.floor_le _) (lt_of_le_of_lt hmh h1)
   rw [toU32Sat_of_nonneg hfv hfl0 hfl1, Int.floor_intCast]
 
+-- satisfiable: x = 3.7 clamped into a 3-wide axis (bound 2.0) addresses texel 2
+example : toRat? 0x40000000 = some 2 ∧ clampAxisHi 0x40000000 0x406CCCCD = .ok 2 := by decide +kernel
+
 /-- The model index agrees with the independent spec function when `h = w − 1`. -/
 theorem clamp_index_spec {x hi : UInt32} {q : ℚ} {w : ℕ} (hw : 1 ≤ w) (hw' : w ≤ 2 ^ 32)
     (hx : toRat? x = some q) (hhi : toRat? hi = some ((w : ℚ) - 1)) :
